@@ -7,7 +7,7 @@
    theorems use), every argument and every event stream.  The other theorems are the C10 property theorems
    (Props/C10.v) restated on the regenerated definitions; their reading is given there. *)
 From Coq Require Import List Reals Lra Lia.
-From DV Require Import Model.C10_RealOps Model.C10_PyRt Proofs.C10_RealOps Gen.C10_gen Proofs.C10_gen_props.
+From DV Require Import Model.C10_RealOps Model.C10_PyRt Proofs.C10_RealOps Gen.C10_gen Proofs.C10_gen_equiv Proofs.C10_gen_props.
 Import ListNotations.
 Local Open Scope R_scope.
 
@@ -22,10 +22,16 @@ Theorem C10_gen_source_is_model : forall (T : Type) (O : ops T),
      mutPolynomialBounded O individual eta low up indpb s = mut_poly O eta low up indpb individual s) /\
   (forall ind1 st1 ind2 st2 alpha s,
      cxESBlend O ind1 st1 ind2 st2 alpha s = cx_es_blend O alpha ind1 st1 ind2 st2 s) /\
-  (forall individual st c indpb s,
+  (div_lawful O -> forall individual st c indpb s,
      mutESLogNormal O individual st c indpb s = mut_es_lognormal O c indpb individual st s).
 Proof. exact source_is_model. Qed.
 Print Assumptions C10_gen_source_is_model.
+
+(* [div_lawful O]: a division of the number record either returns or raises ZeroDivisionError (Proofs/C10_gen_equiv.v);
+   it holds for both instances the model is used at *)
+Theorem C10_gen_number_records_lawful : div_lawful FOps /\ forall eps, div_lawful (ROps eps).
+Proof. exact number_records_lawful. Qed.
+Print Assumptions C10_gen_number_records_lawful.
 
 Theorem C10_gen_sbx_bounded_defined_in_bounds : forall eps, 0 <= eps -> forall eta low up ind1 ind2,
   0 <= eta ->
